@@ -1,55 +1,51 @@
 mod enc;
 mod gen;
 mod intern;
+mod props;
 mod recorder;
 mod rng;
 mod schemas;
 
-use graphql_tools::ast::{visit_document, OperationVisitorContext};
 use serde_json::json;
 use std::io::Write;
 
-fn env_seed() -> u64 { std::env::var("VERIF_SEED").ok().and_then(|s| s.parse().ok()).unwrap_or(0) }
+pub fn env_seed() -> u64 { std::env::var("VERIF_SEED").ok().and_then(|s| s.parse().ok()).unwrap_or(0) }
 
-/// run the real visitor with the recorder; None if it panicked
-fn real_trace(schema: &graphql_tools::static_graphql::schema::Document, doc: &graphql_tools::static_graphql::query::Document) -> Option<(Vec<String>, String)> {
-    let r = std::panic::catch_unwind(std::panic::AssertUnwindSafe(|| {
-        let mut ctx = OperationVisitorContext::new(doc, schema);
-        let mut rec = recorder::Recorder::default();
-        visit_document(&mut rec, doc, &mut ctx, &mut ());
-        let fin = recorder::snap(&ctx);
-        (rec.lines, fin)
-    }));
-    r.ok()
+/// Buffered case file: the string table goes first, so it is written at the end.
+pub struct Out { pub lines: Vec<String> }
+impl Out {
+    pub fn schema(&mut self, si: &gen::SchemaInfo) {
+        self.lines.push(json!({"op": "schema", "name": si.name, "sdl": si.text, "ast": enc::schema(&si.doc)}).to_string());
+    }
+    pub fn push(&mut self, v: serde_json::Value) { self.lines.push(v.to_string()); }
+    pub fn write(&self, path: &str) {
+        let mut f = std::io::BufWriter::new(std::fs::File::create(path).unwrap());
+        writeln!(f, "{}", json!({"op": "strings", "tab": intern::table()})).unwrap();
+        for l in &self.lines { writeln!(f, "{}", l).unwrap(); }
+    }
 }
 
 fn main() {
     let args: Vec<String> = std::env::args().collect();
     std::panic::set_hook(Box::new(|_| {}));
     let cmd = args.get(1).map(|s| s.as_str()).unwrap_or("");
+    let mut out = Out { lines: vec![] };
     match cmd {
-        "gen-trace" => {
-            let n: usize = args[2].parse().unwrap();
-            let out = &args[3];
-            let mut lines: Vec<String> = vec![];
-            let mut rng = rng::Rng::new(env_seed());
-            for (name, text) in schemas::pool() {
-                let si = gen::SchemaInfo::new(name, &text);
-                lines.push(json!({"op": "schema", "name": name, "ast": enc::schema(&si.doc)}).to_string());
-                for i in 0..n {
-                    let noise = [0, 5, 25][i % 3];
-                    let mut g = gen::DocGen::new(&si, rng.fork(), noise, 3);
-                    let text = g.document();
-                    let doc = match gen::parse_doc(&text) { Some(d) => d, None => { eprintln!("unparseable: {}", text); continue; } };
-                    let (impl_lines, fin) = match real_trace(&si.doc, &doc) { Some(x) => (Some(x.0), Some(x.1)), None => (None, None) };
-                    lines.push(json!({"op": "trace", "src": text, "doc": enc::document(&doc),
-                        "impl": {"outcome": if impl_lines.is_some() {"ok"} else {"panic"}, "lines": impl_lines, "final": fin}}).to_string());
-                }
-            }
-            let mut f = std::io::BufWriter::new(std::fs::File::create(out).unwrap());
-            writeln!(f, "{}", json!({"op": "strings", "tab": intern::table()})).unwrap();
-            for l in lines { writeln!(f, "{}", l).unwrap(); }
+        // gen <kind> <tier> <out> <corpusdir>
+        "gen" => {
+            let thorough = args[3] == "thorough";
+            props::generate(&args[2], thorough, env_seed(), &args[5], &mut out);
+            out.write(&args[4]);
         }
-        _ => { eprintln!("usage: gqlv gen-trace N OUT"); std::process::exit(2); }
+        // replay <kind> <replay.json> <out>
+        "replay" => {
+            let rep: serde_json::Value = serde_json::from_str(&std::fs::read_to_string(&args[3]).unwrap()).unwrap();
+            let sdl = rep["schema_sdl"].as_str().expect("replay file has schema_sdl");
+            let si = gen::SchemaInfo::new(rep["schema_name"].as_str().unwrap_or("replay"), sdl);
+            out.schema(&si);
+            props::one_case(&args[2], &si, &rep["input"], &mut out);
+            out.write(&args[4]);
+        }
+        _ => { eprintln!("usage: gqlv gen KIND TIER OUT CORPUS | gqlv replay KIND FILE OUT"); std::process::exit(2); }
     }
 }
